@@ -572,10 +572,10 @@ class Array(metaclass=MetaArray):
         if isinstance(index, (int, np.integer)):
             index = (index,)
         cls = self.__class__
+        bound_check(index, self._shape)
         if hasattr(self, "_offsets"):
             offset = self._offset + self._offsets[index]
         else:
-            bound_check(index, self._shape)
             offset = (
                 self._offset
                 + cls._data_offset
@@ -590,10 +590,10 @@ class Array(metaclass=MetaArray):
         if hasattr(cls._itemtype, "_update"):
             self[index]._update(value)
         else:
+            bound_check(index, self._shape)
             if hasattr(self, "_offsets"):
                 offset = self._offset + self._offsets[index]
             else:
-                bound_check(index, self._shape)
                 offset = (
                     self._offset
                     + cls._data_offset
@@ -623,10 +623,10 @@ class Array(metaclass=MetaArray):
         if isinstance(index, (int, np.integer)):
             index = (index,)
         cls = self.__class__
+        bound_check(index, self._shape)
         if hasattr(self, "_offsets"):
             offset = self._offset + self._offsets[index]
         else:
-            bound_check(index, self._shape)
             offset = (
                 self._offset
                 + cls._data_offset
